@@ -203,7 +203,7 @@ pub fn run(ctx: &Ctx, st: &mut Stats) {
     cal();
     let times = time_pool();
     let nt = times.len() as i64;
-    let stride = ctx.tier.pick(9973, 3, 1);
+    let stride = ctx.tier.pick(9973, ctx.q(3, 1), 1);
     let ndays = (N_DAYS as i64 + stride - 1) / stride;
     let times_ref = &times;
     ctx.par(st, "dates x critical-times", true, 0, ndays * nt, |st, i, _| {
